@@ -523,7 +523,13 @@ impl<'a> Dependency<'a> {
 
         if let TypeLayout::CallbackVariable(ptr_ty) = other_ty {
             if other.cycles_needed > 0 {
-                return Ok(self_ty == ptr_ty.as_ref());
+                // `modify x = value` types `x` after the value: an `int` stored in an `int?` or in an alias of
+                // `int` is still the variable this scope supplies (the assignment itself was checked the same way)
+                return Ok(self_ty == ptr_ty.as_ref()
+                    || self_ty.eq_complex(
+                        ptr_ty.as_ref(),
+                        &TypecheckFlags::<&ClassType>::classless(),
+                    ));
             }
         }
 
